@@ -10,7 +10,8 @@ CFG = dict(
          "f64: adjacent binary64 values and +-0.25), the type's MIN/MAX (f64: +-inf, +-MAX, -0.0, 5e-324), random "
          "values and nulls; element types i32, Option<i32>, f64; label types i32, Option<i32>, f64; Vec / VecDeque / "
          "ndarray containers; plus 1500 (thorough 5000) random configurations with up to 10 edges and matching "
-         "label count. unique: every series over {1,2,3} with a null prefix and/or suffix of every length up to "
+         "label count (about a fifth of them with a repeated edge or unsorted edges: outside the quantifier, pins "
+         "first-match-wins). unique: every series over {1,2,3} with a null prefix and/or suffix of every length up to "
          "len 7 (thorough 9) - sorted ascending, descending, constant and unsorted - every series over {null,1,2} "
          "with an inner null up to len 6 (thorough 8), 600 (thorough 2000) long sorted series with runs up to 12, "
          "null blocks and the type's extremes; each case runs vsorted_unique_idx(First), (Last) and vsorted_unique; "
